@@ -218,6 +218,22 @@ def real_cell(cell):
             os.kill(w, signal.SIGKILL)
             time.sleep(1.0)
             v = check_workers(s, master, uid, gid, initgroups, user, "after a worker was killed") or check_app_view(s, uid, gid, "after respawn")
+        elif history == "hup-new-socket":
+            # the reloaded configuration binds another unix socket: it is created by the running master and belongs to the configured ids too
+            old = set(s.workers())
+            s.sockpath = os.path.join(s.dir, "g-new.sock")
+            s.write_conf()
+            s.signal(signal.SIGHUP)
+            end = time.time() + 8
+            while time.time() < end and (set(s.workers()) & old or len(s.workers()) < 2 or not os.path.exists(s.sockpath)):
+                time.sleep(0.1)
+            time.sleep(0.3)
+            if not os.path.exists(s.sockpath):
+                return ("new-socket-missing", "after HUP with a new bind the socket file does not exist: %s" % s.log_text()[-200:])
+            st2 = os.stat(s.sockpath)
+            if (st2.st_uid, st2.st_gid) != (uid, gid):
+                return ("unix-socket-owner:after-reload", "the socket created by the reload is owned by %d:%d, configured %d:%d" % (st2.st_uid, st2.st_gid, uid, gid))
+            v = check_workers(s, master, uid, gid, initgroups, user, "after HUP with a new bind") or check_app_view(s, uid, gid, "after HUP with a new bind")
         elif history in ("hup", "hup-adds-identity"):
             if late_identity:
                 if user is not None:
@@ -306,7 +322,7 @@ def nocap_cell(cell):
 def real_cells(thorough):
     cells = []
     base = [("www-data", "www-data", False), ("nobody", None, False), (None, "nogroup", False), (33, 65534, False), ("www-data", "nogroup", True)]
-    hist = ("start", "kill-worker", "hup", "hup-adds-identity", "usr2", "usr2-env")
+    hist = ("start", "kill-worker", "hup", "hup-adds-identity", "usr2", "usr2-env", "hup-new-socket")
     for i, (u, g, ig) in enumerate(base):
         for j, h in enumerate(hist):
             classes = ("sync", "gthread", "gevent", "eventlet") if thorough else (("sync",) + (("gthread", "gevent", "eventlet")[(i + j) % 3],))
